@@ -171,6 +171,34 @@ def check(ctx):
         gc = ctx.one_call(gb, f"{CACHE}::get_chunks")
         ctx.flows("5.stream-follows-chunk-order", gc, to_return=True, through_calls=("futures_util::stream::stream::StreamExt::map",))
 
+    # -- 6. get_headers_batch keeps the longest prefix of consecutive heights --
+    with ctx.clause("6.consecutive-prefix"):
+        u = F.unit(f"{IMP}::get_headers_batch")
+        b = ctx.body_with(u, "core::iter::traits::iterator::Iterator::zip")
+        zp = ctx.one_call(b, "core::iter::traits::iterator::Iterator::zip")
+        tw = [c for c in b.calls if c.bb in b.live and c.name in ("take_while", "filter", "skip_while", "map_while", "filter_map") and
+              atom_match(Origins(b, 1).atoms(c.args[0]), "call:core::iter::traits::iterator::Iterator::zip")]
+        ctx.expect_sites("6.height-selection", tw, exactly=1, what="selection of the zipped (header, expected height) pairs")
+        ctx.add("6.prefix-not-subsequence", "ORDER", len(tw) == 1 and tw[0].name in ("take_while", "map_while"),
+                "the batch ends at the first header whose height is not the expected one (take_while): a filter would keep later headers and leave a hole in the heights"
+                + ("" if len(tw) == 1 and tw[0].name in ("take_while", "map_while") else f" — found `{tw[0].name if tw else None}`"),
+                sites=[c.where() for c in tw], site_key="tw")
+        ctx.arg_origin("6.expected-heights-from-requested-range", zp, 1, ctx.pspec(u, 1), depth=3)
+        ctx.arg_origin("6.headers-from-peer-response", zp, 0, f"call:{IMP}::get_sealed_block_headers", depth=3)
+        # the predicate compares the header's own height with the expected one (equality)
+        cl = [x for x in u.bodies if x is not b and [c for c in x.calls if c.path in ("core::cmp::PartialEq::eq",)]]
+        okp = False
+        for x in cl:
+            for c in x.calls:
+                if c.path == "core::cmp::PartialEq::eq":
+                    at = Origins(x, 1).atoms(c.args[0]) | Origins(x, 1).atoms(c.args[1])
+                    if atom_match(at, "call:*::height"):
+                        okp = True
+        ctx.add("6.predicate-is-height-equality", "PROV", okp, "the predicate is `header.height() == expected_height`", sites=[x.defq for x in cl], site_key="pred")
+        ne = ctx.cmp_tests(b, "Ne", lhs="call:alloc::vec::Vec::len", rhs="call:*::len", depth=1)
+        rp = [c for c in b.calls_to(f"{IMP}::report_peer") if c.bb in b.live]
+        ctx.guarded("6.short-batch-reported", b, rp, ne, truth=True, detail="a peer that delivered fewer consecutive headers than requested is reported")
+
 
 def _raw_results(hb, ih):
     """does the cached batch contain the unchecked `results` (field of the fetched batch) without passing take_while?"""
